@@ -599,4 +599,14 @@ func TestC02Regress(t *testing.T) {
 	c = mk(zv, gen.TZSet2, z2, "zset/zset2", t32)
 	c.keyExists, c.existing, c.exValue = "rewrite", "other", str("old")
 	c02Check(t, c)
+	// fixed: a ziplist with more than 65535 entries (its 16-bit count saturates) on the element-by-element route
+	rapid.Check(t, func(rt *rapid.T) {
+		big := &gen.Value{Kind: "list"}
+		for i := 0; i < 65540; i++ {
+			big.List = append(big.List, []byte(strconv.Itoa(i)))
+		}
+		c := mk(big, gen.TListZiplist, gen.AppendRawString(nil, gen.Ziplist(rt, big.List, nil)), "list/ziplist", t5)
+		c.threshold = 1
+		c02Check(t, c)
+	})
 }
